@@ -116,7 +116,8 @@ Definition preorder_ok (t : ty) (k : okind) (l : list val) : bool :=
    method orders differently from the field-by-field comparison *)
 Definition pairs_exist (p : val -> val -> bool) (l : list val) : bool :=
   existsb (fun x => existsb (p x) l) l.
-Definition meth_tag (t : ty) (l : list val) : string :=
+Definition meth_tag (t : ty) (l0 : list val) : string :=
+  let l := firstn 12 l0 in          (* a tag only: the first elements *)
   if method_free t then ""
   else "methods"
        ++ (if pairs_exist (fun x y => match cmp13 [] t x y with Ok c => (1 <? Z.abs c)%Z | _ => false end) l
